@@ -114,6 +114,8 @@ def run(ctx) -> None:
 
     ctx.rule("C01.replay", "bounded evaluation: after every editing operation of the pool (alone, in ordered pairs, inside and after contexts, refused ones) the solver stand-in holds exactly the flux-balance problem of the stand-in model as it stands", floor=1)
     ctx.guard(replayform.check_replay, ctx, "C01.replay", "c01")
+    ctx.rule("C02.effect", "bounded evaluation: documented effects of the editing operations; what the model reports about its objective is what the solver objective holds (shared with C02)", floor=1)
+    ctx.guard(replayform.check_effects, ctx, "C02.effect")
 
 
 # ------------------------------------------------------------------------------------ sync/atomic
